@@ -44,11 +44,12 @@ fn files_query_dyn(repo: &dyn jj_lib::repo::Repo, p: &[u64]) -> Result<BTreeSet<
 }
 
 /// terms of the parents' merge without resolution, and the per-path expectation of the property text
-fn oracle_changed(env: &Env, from: &[MTree], to: &[MTree]) -> (BTreeSet<Vec<u64>>, BTreeSet<Vec<u64>>) {
-    // returns (changed, undecided): undecided = paths below a clash, which the oracle does not judge
+fn oracle_changed(env: &Env, from: &[MTree], to: &[MTree]) -> (BTreeSet<Vec<u64>>, BTreeSet<Vec<u64>>, usize) {
+    // returns (changed, undecided, permuted): undecided = paths the oracle does not judge: below a clash, or (counted in
+    // `permuted`) unresolved conflicts on both sides with the same signed terms in a different order / number
     let mut paths = BTreeSet::new();
     for t in from.iter().chain(to.iter()) { all_paths(t, &mut vec![], &mut paths); }
-    let (mut changed, mut undecided) = (BTreeSet::new(), BTreeSet::new());
+    let (mut changed, mut undecided, mut permuted) = (BTreeSet::new(), BTreeSet::new(), 0usize);
     for p in paths {
         if !(no_clash_above(from, &p, env.accept) && no_clash_above(to, &p, env.accept)) { undecided.insert(p); continue; }
         let tree_as_absent = |e: Exp| match e { Exp::Resolved(Some(V::T(_))) => Exp::Resolved(None), Exp::Conflict(c, true) => { let _ = c; Exp::Resolved(None) } e => e };
@@ -57,9 +58,18 @@ fn oracle_changed(env: &Env, from: &[MTree], to: &[MTree]) -> (BTreeSet<Vec<u64>
         let to_vals: Vec<OV> = to.iter().map(|t| get(t, &p)).collect();
         let after = tree_as_absent(norm_actual(&to_vals, env.accept));
         let same = match (&before, &after) { (Exp::Resolved(a), Exp::Resolved(b)) => a == b, (Exp::Conflict(a, _), Exp::Conflict(b, _)) => a == b, _ => false };
+        if same && matches!(before, Exp::Conflict(..)) {
+            // Both sides are unresolved conflicts with the same signed multiset of terms. Whether the *stored*
+            // conflicts are the same content depends on the order (and number) of their terms — jj's `Merge`
+            // equality, its tree ids and the materialized conflict all depend on it ([dir, ~, f] against
+            // [f, ~, dir] is a different conflict) — which the multiset cannot tell: judged only when the
+            // term lists are literally equal.
+            let from_vals: Vec<OV> = from.iter().map(|t| get(t, &p)).collect();
+            if from_vals != to_vals { undecided.insert(p); permuted += 1; continue; }
+        }
         if !same { changed.insert(p); }
     }
-    (changed, undecided)
+    (changed, undecided, permuted)
 }
 
 struct Written { hist: Hist, real: Vec<Commit> }
@@ -119,7 +129,8 @@ fn check_commit(env: &mut Env, out: &mut Out, repo: &Arc<ReadonlyRepo>, w: &Writ
     let parents: Vec<Commit> = w.hist.commits[i].0.iter().map(|p| w.real[*p].clone()).collect();
     let from = match guard(|| jj_lib::rewrite::merge_commit_trees_no_resolve(repo.as_ref(), &parents).block_on()) { Ok(Ok(t)) => t, _ => return };
     let from_terms = match env.conv.read_merged(&from) { Ok(t) => t, Err(_) => return };
-    let (changed, undecided) = oracle_changed(env, &from_terms, &w.hist.commits[i].1);
+    let (changed, undecided, permuted) = oracle_changed(env, &from_terms, &w.hist.commits[i].1);
+    if permuted > 0 { out.tally("oracle.not-judged", "same-conflict-terms-in-another-order"); }
     let missing: Vec<_> = changed.iter().filter(|p| !got.contains(*p)).collect();
     let extra: Vec<_> = got.iter().filter(|p| !changed.contains(*p) && !undecided.contains(*p)).collect();
     if missing.is_empty() && extra.is_empty() { out.oracle_ok() }
